@@ -25,6 +25,30 @@ theorem ReachableFrom.trans {cfg : Config} {a b c : AState} (h1 : ReachableFrom 
 theorem ReachableFrom.one {cfg : Config} {a b : AState} (h : Step cfg a b) : ReachableFrom cfg a b :=
   ReachableFrom.step ReachableFrom.base h
 
+/-! ### counting steps -/
+
+/-- `s'` is reached from `s` in exactly `k` steps -/
+inductive ReachableIn (cfg : Config) (s : AState) : Nat → AState → Prop
+  | base : ReachableIn cfg s 0 s
+  | step {k a b} : ReachableIn cfg s k a → Step cfg a b → ReachableIn cfg s (k + 1) b
+
+theorem ReachableIn.trans {cfg : Config} {a b c : AState} {j k : Nat} (h1 : ReachableIn cfg a j b) (h2 : ReachableIn cfg b k c) :
+    ReachableIn cfg a (j + k) c := by
+  induction h2 with
+  | base => exact h1
+  | step _ hs ih => exact ReachableIn.step ih hs
+
+theorem ReachableIn.one {cfg : Config} {a b : AState} (h : Step cfg a b) : ReachableIn cfg a 1 b :=
+  ReachableIn.step ReachableIn.base h
+
+theorem ReachableIn.cast {cfg : Config} {a b : AState} {j k : Nat} (h : ReachableIn cfg a j b) (e : j = k) : ReachableIn cfg a k b :=
+  e ▸ h
+
+theorem ReachableIn.toFrom {cfg : Config} {a b : AState} {k : Nat} (h : ReachableIn cfg a k b) : ReachableFrom cfg a b := by
+  induction h with
+  | base => exact ReachableFrom.base
+  | step _ hs ih => exact ReachableFrom.step ih hs
+
 /-! ### configuration -/
 
 theorem voterIds_isVoter (cfg : Config) : ∀ v ∈ cfg.voterIds, cfg.isVoter v = true := by
@@ -99,7 +123,7 @@ theorem grant_all {cfg : Config} (q : RVMsg) (T0 : Nat) (hq : T0 < q.term) :
       (∀ m ∈ ms, (s.nodes m).term ≤ T0) →
       (∀ m ∈ ms, upToDate q (s.nodes m).log) →
       (∀ m ∈ ms, ∀ c', (q.term, m, c') ∈ s.votes → c' = q.cand) →
-      ∃ s', ReachableFrom cfg s s' ∧
+      ∃ s', ReachableIn cfg s ms.length s' ∧
         (∀ m ∈ ms, (q.term, m, q.cand) ∈ s'.votes) ∧ (∀ x ∈ s.votes, x ∈ s'.votes) ∧
         (∀ j, j ∉ ms → s'.nodes j = s.nodes j) ∧
         (∀ m ∈ ms, (s'.nodes m).term = q.term ∧ (s'.nodes m).role = .follower ∧
@@ -109,7 +133,7 @@ theorem grant_all {cfg : Config} (q : RVMsg) (T0 : Nat) (hq : T0 < q.term) :
   induction ms with
   | nil =>
     intro s _ _ _ _ _
-    exact ⟨s, ReachableFrom.base, by simp, fun x h => h, fun j _ => rfl, by simp, rfl, rfl, rfl⟩
+    exact ⟨s, ReachableIn.base, by simp, fun x h => h, fun j _ => rfl, by simp, rfl, rfl, rfl⟩
   | cons m ms ih =>
     intro s hnd hqin hterm hup hvotes
     obtain ⟨hmn, hnd'⟩ := List.nodup_cons.mp hnd
@@ -135,7 +159,7 @@ theorem grant_all {cfg : Config} (q : RVMsg) (T0 : Nat) (hq : T0 < q.term) :
         rcases List.mem_cons.mp hc' with heq | hold
         · simp only [Prod.mk.injEq] at heq; exact absurd heq.2.1 (hne m' h)
         · exact hvotes m' (List.mem_cons_of_mem _ h) c' hold)
-    refine ⟨s', (ReachableFrom.one hstep).trans hreach, ?_, ?_, ?_, ?_, ?_, ?_, ?_⟩
+    refine ⟨s', ((ReachableIn.one hstep).trans hreach).cast (by simp only [List.length_cons]; omega), ?_, ?_, ?_, ?_, ?_, ?_, ?_⟩
     · intro x hx
       rcases List.mem_cons.mp hx with rfl | h
       · exact hv2 _ (by rw [hs2]; exact List.mem_cons_self)
@@ -162,7 +186,7 @@ theorem replicate_one {cfg : Config} (hnd : cfg.voterIds.Nodup) {s : AState} (hr
     (l n prev k : Nat) (hl : (s.nodes l).role = .leader) (hp : prev ≤ (s.nodes l).log.length) (hn : n ≠ l)
     (ht : (s.nodes n).term ≤ (s.nodes l).term) (hpn : prev ≤ (s.nodes n).log.length)
     (hpt : termAt (s.nodes n).log prev = termAt (s.nodes l).log prev) :
-    ∃ s2, ReachableFrom cfg s s2 ∧
+    ∃ s2, ReachableIn cfg s 2 s2 ∧
       s2.nodes n = { term := (s.nodes l).term, role := .follower,
                      log := merge (s.nodes n).log prev (((s.nodes l).log.drop prev).take k),
                      commit := max (s.nodes n).commit (min (s.nodes l).commit (prev + (((s.nodes l).log.drop prev).take k).length)) } ∧
@@ -184,7 +208,7 @@ theorem replicate_one {cfg : Config} (hnd : cfg.voterIds.Nodup) {s : AState} (hr
     · left; exact hrl
   have hstep2 := Step.recvAEok (cfg := cfg) s1 n m (by rw [hs1]; exact List.mem_cons_self)
     (by rw [hn1, hm]; exact ht) hrole (by rw [hn1, hm]; exact hpn) (by rw [hn1, hm]; exact hpt)
-  refine ⟨_, (ReachableFrom.one hstep1).trans (ReachableFrom.one hstep2), ?_, ?_, ?_, ?_, ?_⟩
+  refine ⟨_, (ReachableIn.one hstep1).trans (ReachableIn.one hstep2), ?_, ?_, ?_, ?_, ?_⟩
   · simp only [setNode, if_true, hn1, hm]
   · intro j hj; simp only [setNode, if_neg hj, hn1]
   · rw [hs1]
@@ -197,7 +221,7 @@ theorem replicate_all {cfg : Config} (hnd : cfg.voterIds.Nodup) (l T : Nat) (g :
     ∀ (ms : List Nat) (s : AState), Reachable cfg s → ms.Nodup → l ∉ ms →
       (s.nodes l).role = .leader → (s.nodes l).log = g → (s.nodes l).term = T →
       (∀ m ∈ ms, (s.nodes m).term ≤ T) → (∀ m ∈ ms, ∀ e ∈ (s.nodes m).log, e.term < T) →
-      ∃ s', ReachableFrom cfg s s' ∧
+      ∃ s', ReachableIn cfg s (2 * ms.length) s' ∧
         (∀ m ∈ ms, (s'.nodes m).log = g ∧ (s'.nodes m).term = T ∧ (m, g.length, T) ∈ s'.acked) ∧
         (∀ j, j ∉ ms → s'.nodes j = s.nodes j) ∧ s'.glog = s.glog ∧ s'.votes = s.votes ∧
         (∀ x ∈ s.acked, x ∈ s'.acked) := by
@@ -205,7 +229,7 @@ theorem replicate_all {cfg : Config} (hnd : cfg.voterIds.Nodup) (l T : Nat) (g :
   induction ms with
   | nil =>
     intro s _ _ _ _ _ _ _ _
-    exact ⟨s, ReachableFrom.base, by simp, fun j _ => rfl, rfl, rfl, fun x h => h⟩
+    exact ⟨s, ReachableIn.base, by simp, fun j _ => rfl, rfl, rfl, fun x h => h⟩
   | cons m ms ih =>
     intro s hr hndm hlm hl hlog hterm hts hes
     obtain ⟨hmn, hnd'⟩ := List.nodup_cons.mp hndm
@@ -214,7 +238,7 @@ theorem replicate_all {cfg : Config} (hnd : cfg.voterIds.Nodup) (l T : Nat) (g :
     have hinv := inv_reachable hnd hr
     obtain ⟨s2, hreach, hnode, hother, hg2, hv2, ha2⟩ := replicate_one hnd hr l m 0 g.length hl (Nat.zero_le _) hml
       (by rw [hterm]; exact hts m List.mem_cons_self) (Nat.zero_le _) rfl
-    have hr2 := reachable_trans hr hreach
+    have hr2 := reachable_trans hr hreach.toFrom
     -- what m holds now
     have hseg : ((s.nodes l).log.drop 0).take g.length = g := by rw [hlog]; simp
     have hmlog : (s2.nodes m).log = g := by
@@ -240,7 +264,7 @@ theorem replicate_all {cfg : Config} (hnd : cfg.voterIds.Nodup) (l T : Nat) (g :
       (by rw [hother l (Ne.symm hml)]; exact hterm)
       (fun m' h => by rw [hother m' (hne m' h)]; exact hts m' (List.mem_cons_of_mem _ h))
       (fun m' h => by rw [hother m' (hne m' h)]; exact hes m' (List.mem_cons_of_mem _ h))
-    refine ⟨s', hreach.trans hreach', ?_, ?_, ?_, ?_, ?_⟩
+    refine ⟨s', (hreach.trans hreach').cast (by simp only [List.length_cons]; omega), ?_, ?_, ?_, ?_, ?_⟩
     · intro x hx
       rcases List.mem_cons.mp hx with rfl | h
       · rw [hfr x hmn]
@@ -260,14 +284,14 @@ theorem heartbeat_all {cfg : Config} (hnd : cfg.voterIds.Nodup) (l T : Nat) (g :
     ∀ (ms : List Nat) (s : AState), Reachable cfg s → ms.Nodup → l ∉ ms →
       (s.nodes l).role = .leader → (s.nodes l).log = g → (s.nodes l).term = T → (s.nodes l).commit = g.length →
       (∀ m ∈ ms, (s.nodes m).log = g ∧ (s.nodes m).term ≤ T) →
-      ∃ s', ReachableFrom cfg s s' ∧
+      ∃ s', ReachableIn cfg s (2 * ms.length) s' ∧
         (∀ m ∈ ms, (s'.nodes m).log = g ∧ (s'.nodes m).commit = g.length ∧ (s'.nodes m).term = T ∧ (s'.nodes m).role = .follower) ∧
         (∀ j, j ∉ ms → s'.nodes j = s.nodes j) := by
   intro ms
   induction ms with
   | nil =>
     intro s _ _ _ _ _ _ _ _
-    exact ⟨s, ReachableFrom.base, by simp, fun j _ => rfl⟩
+    exact ⟨s, ReachableIn.base, by simp, fun j _ => rfl⟩
   | cons m ms ih =>
     intro s hr hndm hlm hl hlog hterm hcom hms
     obtain ⟨hmn, hnd'⟩ := List.nodup_cons.mp hndm
@@ -277,7 +301,7 @@ theorem heartbeat_all {cfg : Config} (hnd : cfg.voterIds.Nodup) (l T : Nat) (g :
     obtain ⟨hmlog, hmterm⟩ := hms m List.mem_cons_self
     obtain ⟨s2, hreach, hnode, hother, _, _, _⟩ := replicate_one hnd hr l m g.length 0 hl (by rw [hlog]; exact Nat.le_refl _) hml
       (by rw [hterm]; exact hmterm) (by rw [hmlog]; exact Nat.le_refl _) (by rw [hmlog, hlog])
-    have hr2 := reachable_trans hr hreach
+    have hr2 := reachable_trans hr hreach.toFrom
     have hmc : (s.nodes m).commit ≤ g.length := by have := (hinv.commit_ok m).1; rw [hmlog] at this; exact this
     have hnode' : s2.nodes m = { term := T, role := .follower, log := g, commit := g.length } := by
       rw [hnode, hterm, hmlog, hcom]
@@ -289,7 +313,7 @@ theorem heartbeat_all {cfg : Config} (hnd : cfg.voterIds.Nodup) (l T : Nat) (g :
       (by rw [hother l (Ne.symm hml)]; exact hl) (by rw [hother l (Ne.symm hml)]; exact hlog)
       (by rw [hother l (Ne.symm hml)]; exact hterm) (by rw [hother l (Ne.symm hml)]; exact hcom)
       (fun m' h => by rw [hother m' (hne m' h)]; exact hms m' (List.mem_cons_of_mem _ h))
-    refine ⟨s', hreach.trans hreach', ?_, ?_⟩
+    refine ⟨s', (hreach.trans hreach').cast (by simp only [List.length_cons]; omega), ?_, ?_⟩
     · intro x hx
       rcases List.mem_cons.mp hx with rfl | h
       · rw [hfr x hmn, hnode']; exact ⟨rfl, rfl, rfl, rfl⟩
@@ -305,9 +329,9 @@ theorem heartbeat_all {cfg : Config} (hnd : cfg.voterIds.Nodup) (l T : Nat) (g :
     that ends with a leader `l` (a voter) of a term `T` above every term any voter had, whose log
     is its old log plus one entry of term `T`, entirely committed, and every voter holds
     exactly that log, with the same commit index and term. -/
-theorem progress_possible {cfg : Config} (hnd : cfg.voterIds.Nodup) (hne : cfg.voterIds ≠ []) {s : AState}
+theorem progress_possible_in {cfg : Config} (hnd : cfg.voterIds.Nodup) (hne : cfg.voterIds ≠ []) {s : AState}
     (hr : Reachable cfg s) :
-    ∃ s' l T, ReachableFrom cfg s s' ∧ cfg.isVoter l = true ∧ (s'.nodes l).role = .leader ∧ (s'.nodes l).term = T ∧
+    ∃ s' l T k, k ≤ 5 * cfg.voterIds.length + 4 ∧ ReachableIn cfg s k s' ∧ cfg.isVoter l = true ∧ (s'.nodes l).role = .leader ∧ (s'.nodes l).term = T ∧
       (∀ v, cfg.isVoter v = true → (s.nodes v).term < T) ∧
       (s'.nodes l).log = (s.nodes l).log ++ [⟨T, 0⟩] ∧
       (∀ v, cfg.isVoter v = true → (s'.nodes v).log = (s'.nodes l).log ∧
@@ -385,9 +409,9 @@ theorem progress_possible {cfg : Config} (hnd : cfg.voterIds.Nodup) (hne : cfg.v
     rw [hsD, hCc, hg]; simp
   have hglen : g.length = (s.nodes c).log.length + 1 := by rw [hg]; simp
   have hglast : lastTerm g = T0 + 2 := by rw [hg]; exact lastTerm_append _ _
-  have hreachD : ReachableFrom cfg s sD :=
-    (((ReachableFrom.one hstepA).trans (ReachableFrom.one hstepB)).trans hreachC).trans (ReachableFrom.one hstepD)
-  have hrD := reachable_trans hr hreachD
+  have hreachD : ReachableIn cfg s (1 + 1 + ms.length + 1) sD :=
+    (((ReachableIn.one hstepA).trans (ReachableIn.one hstepB)).trans hreachC).trans (ReachableIn.one hstepD)
+  have hrD := reachable_trans hr hreachD.toFrom
   -- 5. it replicates its log
   have hDm : ∀ m ∈ ms, (sD.nodes m).term = T0 + 2 ∧ (sD.nodes m).log = (s.nodes m).log := by
     intro m h
@@ -406,7 +430,7 @@ theorem progress_possible {cfg : Config} (hnd : cfg.voterIds.Nodup) (hne : cfg.v
       have h4 := hT0 m h1
       omega)
   have hEc : sE.nodes c = sD.nodes c := hEfr c hcms
-  have hrE := reachable_trans hrD hreachE
+  have hrE := reachable_trans hrD hreachE.toFrom
   -- 6. it commits
   obtain ⟨sF, hsF⟩ : ∃ sF : AState, sF = { sE with nodes := setNode sE c { sE.nodes c with commit := max (sE.nodes c).commit g.length } } := ⟨_, rfl⟩
   have hstepF : Step cfg sE sF := by
@@ -432,7 +456,8 @@ theorem progress_possible {cfg : Config} (hnd : cfg.voterIds.Nodup) (hne : cfg.v
       rw [hFo m h2]
       exact ⟨(hEall m h).1, by rw [(hEall m h).2.1]; exact Nat.le_refl _⟩)
   have hGc : sG.nodes c = { term := T0 + 2, role := .leader, log := g, commit := g.length } := by rw [hGfr c hcms, hFc]
-  refine ⟨sG, c, T0 + 2, ((hreachD.trans hreachE).trans (ReachableFrom.one hstepF)).trans hreachG,
+  have hmslen : ms.length ≤ cfg.voterIds.length := by rw [hms]; exact List.length_filter_le _ _
+  refine ⟨sG, c, T0 + 2, _, by omega, ((hreachD.trans hreachE).trans (ReachableIn.one hstepF)).trans hreachG,
     voterIds_isVoter cfg c hc, by rw [hGc], by rw [hGc], ?_, by rw [hGc, hg], ?_⟩
   · intro v hv
     have := hT0 v (isVoter_mem cfg v hv)
@@ -443,6 +468,17 @@ theorem progress_possible {cfg : Config} (hnd : cfg.voterIds.Nodup) (hne : cfg.v
     · subst hvc; rw [hGc]; exact ⟨rfl, rfl, rfl⟩
     · obtain ⟨a1, a2, a3, _⟩ := hGall v ((hmsmem v).mpr ⟨hvm, hvc⟩)
       rw [hGc]; exact ⟨a1, a2, a3⟩
+
+/-- the same without the count (the form the property files use) -/
+theorem progress_possible {cfg : Config} (hnd : cfg.voterIds.Nodup) (hne : cfg.voterIds ≠ []) {s : AState}
+    (hr : Reachable cfg s) :
+    ∃ s' l T, ReachableFrom cfg s s' ∧ cfg.isVoter l = true ∧ (s'.nodes l).role = .leader ∧ (s'.nodes l).term = T ∧
+      (∀ v, cfg.isVoter v = true → (s.nodes v).term < T) ∧
+      (s'.nodes l).log = (s.nodes l).log ++ [⟨T, 0⟩] ∧
+      (∀ v, cfg.isVoter v = true → (s'.nodes v).log = (s'.nodes l).log ∧
+        (s'.nodes v).commit = (s'.nodes l).log.length ∧ (s'.nodes v).term = T) := by
+  obtain ⟨s', l, T, k, _, hk, rest⟩ := progress_possible_in hnd hne hr
+  exact ⟨s', l, T, hk.toFrom, rest⟩
 
 end Repl
 end Raft
